@@ -5,10 +5,17 @@ Inputs: every labelled rooted tree on the rows of a table (= every permutation o
 sorted table), several injective id labellings (contiguous, permuted, non-contiguous), 0-2 extra columns.
 Oracle: the bijection new->old is recovered from a unique column (x) — or, for the column-free
 `sort_nodes_impl`, from the returned index map — and every clause is then evaluated with plain loops.
+
+Fourth session: the input space is widened along the axes the property quantifies over ("any set of extra per-node columns",
+"non-contiguous ids", "root anywhere"): extra columns of every dtype family (`PROFILES`: int64 of magnitude 2**62, uint64 above
+2**63, float32, float64 with 17 significant digits, bool, object/str), ids far from 0 (10**12 + ...), duplicate coordinates (two nodes
+at the same place: the node is then identified by its whole row), larger random tables with the root in the last / a middle row.
+Every value is compared EXACTLY in its own type (no conversion to float).
 """
 from __future__ import annotations
 
 import itertools
+import math
 import os
 import random
 import shutil
@@ -56,9 +63,58 @@ def rooted_structures(n, root0=False):
             yield pp
 
 
-def make_table(pp, lab, n_extra):
-    """Columns of the input table (python lists), row i = node with id lab[i]."""
+def _extras(profile, n):
+    """extra per-node columns by dtype family (numpy arrays; 0/1/2 = the original float64 columns)"""
+    i = np.arange(n)
+    if profile in (0, None):
+        return {}
+    if profile == 1:
+        return dict(e1=0.5 * (i % 2))
+    if profile == 2:
+        return dict(e1=0.5 * (i % 2), e2=7.0 - i)
+    if profile == "int64":  # odd values of magnitude 2**62: no float64 holds them
+        return dict(e1=(np.int64(2) ** 62 + 1 + 2 * i).astype(np.int64), e2=((i + 1) / 7.0).astype(np.float64))
+    if profile == "uint64":  # above the int64 range / negative int64 far below -2**53
+        return dict(e1=(np.uint64(2) ** np.uint64(63) + np.uint64(5) + (7 * i).astype(np.uint64)).astype(np.uint64), e2=(-(np.int64(2) ** 61) - 11 * i - 1).astype(np.int64))
+    if profile == "float32":  # float32 values that are no short decimals; float64 with all 17 digits in use
+        return dict(e1=(0.1 * (i + 1)).astype(np.float32), e2=np.array([math.pi * 10.0 ** (int(k) % 5) + int(k) / 3.0 for k in i], dtype=np.float64))
+    if profile == "bool-str":
+        return dict(e1=(i % 3 == 0), e2=np.array([f"n{int(k):03d}" for k in i], dtype=object))
+    if profile == "int32-float16":  # narrow types
+        return dict(e1=(2 ** 31 - 1 - 5 * i).astype(np.int32), e2=(0.25 * i + 0.125).astype(np.float16))
+    raise ValueError(profile)
+
+
+PROFILES = ("int64", "uint64", "float32", "bool-str", "int32-float16")
+FILE_PROFILES = (2, "float32")  # the file form parses every extra column as float
+FAR = 10 ** 12
+
+
+def _exact(v):
+    """a cell as an exactly comparable python value of its own type"""
+    if isinstance(v, (bool, np.bool_)):
+        return bool(v)
+    if isinstance(v, (int, np.integer)):
+        return int(v)
+    if isinstance(v, (float, np.floating)):
+        return float(v)  # float16/32 -> float64 is exact
+    return str(v)
+
+
+def make_table(pp, lab, n_extra, dup=False):
+    """Columns of the input table, row i = node with id lab[i].  dup: nodes 2k and 2k+1 share their coordinates (r stays unique)."""
     n = len(pp)
+    cols = _make_core(pp, lab, n)
+    if dup:
+        cols["x"] = [10.0 + 1.5 * (i // 2) for i in range(n)]
+        cols["y"] = [float((i // 2) % 2) for i in range(n)]
+        cols["z"] = [-1.0 * (i // 2) for i in range(n)]
+        cols["r"] = [1.0 + 0.25 * i for i in range(n)]
+    cols.update(_extras(n_extra, n))
+    return cols
+
+
+def _make_core(pp, lab, n):
     cols = dict(
         id=[int(lab[i]) for i in range(n)],
         type=[1 if pp[i] == -1 else 2 + (i % 3) for i in range(n)],
@@ -68,10 +124,6 @@ def make_table(pp, lab, n_extra):
         r=[1.0 + 0.25 * (i % 3) for i in range(n)],
         pid=[-1 if pp[i] == -1 else int(lab[pp[i]]) for i in range(n)],
     )
-    if n_extra >= 1:
-        cols["e1"] = [0.5 * (i % 2) for i in range(n)]  # with duplicates
-    if n_extra >= 2:
-        cols["e2"] = [7.0 - i for i in range(n)]
     return cols
 
 
@@ -110,19 +162,29 @@ def check_result(V, pp, inp, out, sigma=None):
         V("parents-before-children", f"pids {pids}", "0 <= pid[k] < k for every k > 0")
         ok = False
     if sigma is None:  # recover the bijection from the unique column
-        where = {v: i for i, v in enumerate(inp["x"])}
-        sigma = [where.get(float(v)) for v in out["x"]]
-        if None in sigma or sorted(sigma) != list(range(n)):
-            V("columns-follow-the-bijection", f"x column {list(map(float, out['x']))}", f"a permutation of {inp['x']}")
-            return False, None
         if set(out) != set(inp):
             V("columns-follow-the-bijection", f"columns {sorted(out)}", f"columns {sorted(inp)}")
             ok = False
+        xs = [_exact(v) for v in inp["x"]]
+        if len(set(xs)) == n:
+            where = {v: i for i, v in enumerate(xs)}
+            sigma = [where.get(_exact(v)) for v in out["x"]]
+            if None in sigma or sorted(sigma) != list(range(n)):
+                V("columns-follow-the-bijection", f"x column {[_exact(v) for v in out['x']]}", f"a permutation of {xs}")
+                return False, None
+        else:  # two nodes at the same place: a node is identified by its whole row (rows are pairwise different)
+            keys = [c for c in inp if c not in ("id", "pid") and c in out]
+            where = {tuple(_exact(inp[c][i]) for c in keys): i for i in range(n)}
+            sigma = [where.get(tuple(_exact(out[c][k]) for c in keys)) for k in range(n)]
+            if None in sigma or sorted(sigma) != list(range(n)):
+                bad = next((k for k in range(n) if sigma[k] is None), 0)
+                V("columns-follow-the-bijection", f"row {bad} = {dict((c, _exact(out[c][bad])) for c in keys)}", "every row of the result is a row of the input, each exactly once")
+                return False, None
         for col in inp:
             if col in ("id", "pid") or col not in out:
                 continue
-            got = [float(v) for v in out[col]]
-            want = [float(inp[col][sigma[k]]) for k in range(n)]
+            got = [_exact(v) for v in out[col]]
+            want = [_exact(inp[col][sigma[k]]) for k in range(n)]
             if got != want:
                 V("columns-follow-the-bijection", f"{col} = {got}", f"{col} = {want} (rows {sigma} of the input)")
                 ok = False
@@ -147,7 +209,7 @@ def check_result(V, pp, inp, out, sigma=None):
 
 def _attrs_of(out, n):
     cols = sorted(c for c in out if c not in ("id", "pid"))
-    return [tuple(float(out[c][k]) for c in cols) for k in range(n)]
+    return [tuple(_exact(out[c][k]) for c in cols) for k in range(n)]
 
 
 def _check_idempotent(V, out1, out2, attrs1, attrs2):
@@ -165,7 +227,7 @@ def _check_idempotent(V, out1, out2, attrs1, attrs2):
 def _df(cols):
     import pandas as pd
 
-    return pd.DataFrame({k: np.array(v, dtype=(np.int64 if k in ("id", "pid", "type") else np.float64)) for k, v in cols.items()})
+    return pd.DataFrame({k: (v.copy() if isinstance(v, np.ndarray) else np.array(v, dtype=(np.int64 if k in ("id", "pid", "type") else np.float64))) for k, v in cols.items()})
 
 
 def _cols_of_df(df):
@@ -181,11 +243,12 @@ def _write_swc(path, cols):
             f.write(" ".join((str(int(cols[k][i])) if k in ("id", "type", "pid") else repr(float(cols[k][i]))) for k in names) + "\n")
 
 
-def check_case(ctx, carrier, pp, lab, n_extra, base=None):
+def check_case(ctx, carrier, pp, lab, n_extra, base=None, dup=False):
     pp, lab = tuple(int(v) for v in pp), tuple(int(v) for v in lab)
     n = len(pp)
-    spec = dict(carrier=carrier, parent_row=list(pp), ids=list(lab), extra_columns=int(n_extra))
-    inp = make_table(pp, lab, n_extra)
+    n_extra = n_extra if isinstance(n_extra, str) else int(n_extra)
+    spec = dict(carrier=carrier, parent_row=list(pp), ids=list(lab), extra_columns=n_extra, duplicate_coordinates=bool(dup))
+    inp = make_table(pp, lab, n_extra, dup)
     V = lambda clause, obs, exp: ctx.violation(carrier, clause, spec, obs, exp, spec)  # noqa: E731
     nontrivial = n >= 2
     if carrier not in ("sort_nodes_impl", "sort_nodes", "sort_nodes_", "read_swc", "sort_tree"):
@@ -196,7 +259,8 @@ def check_case(ctx, carrier, pp, lab, n_extra, base=None):
         if carrier == "sort_nodes_impl":
             from swcgeom.core.swc_utils import sort_nodes_impl
 
-            ids, pids = np.array(inp["id"], dtype=np.int32), np.array(inp["pid"], dtype=np.int32)
+            it = np.int32 if max(abs(v) for v in inp["id"]) < 2 ** 31 else np.int64
+            ids, pids = np.array(inp["id"], dtype=it), np.array(inp["pid"], dtype=it)
             (nid, npid), idx = sort_nodes_impl((ids.copy(), pids.copy()))
             out1 = dict(id=nid, pid=npid)
             ok, sigma = check_result(V, pp, inp, out1, sigma=idx)
@@ -224,7 +288,7 @@ def check_case(ctx, carrier, pp, lab, n_extra, base=None):
             out1 = call(inp)
             ok, sigma = check_result(V, pp, inp, out1)
             if ok:
-                out2 = call({k: list(v) for k, v in out1.items()})
+                out2 = call(dict(out1))
                 _check_idempotent(V, out1, out2, _attrs_of(out1, n), _attrs_of(out2, n))
         elif carrier == "read_swc":
             from swcgeom.core.swc_utils import read_swc
@@ -253,7 +317,7 @@ def check_case(ctx, carrier, pp, lab, n_extra, base=None):
             from swcgeom.core.swc_utils import is_sorted
 
             def mk(cols):
-                kw = {k: np.array(v, dtype=(np.int32 if k in ("id", "pid", "type") else np.float32)) for k, v in cols.items()}
+                kw = {k: (v.copy() if isinstance(v, np.ndarray) and k not in ("id", "pid", "type", "x", "y", "z", "r") else np.array(v, dtype=(np.int32 if k in ("id", "pid", "type") else np.float32))) for k, v in cols.items()}
                 return Tree(n, **kw)
 
             t = mk(inp)
@@ -274,7 +338,7 @@ def check_case(ctx, carrier, pp, lab, n_extra, base=None):
                 _check_idempotent(V, out1, out2, _attrs_of(out1, n), _attrs_of(out2, n))
     except Exception as e:
         V("operation-raises", f"{type(e).__name__}: {e}", "no exception")
-    ctx.case(carrier, dict(parent_row=list(pp), ids=list(lab), extra_columns=n_extra), nontrivial=nontrivial)
+    ctx.case(carrier, dict(parent_row=list(pp), ids=list(lab), extra_columns=n_extra, duplicate_coordinates=bool(dup)), nontrivial=nontrivial)
 
 
 def check_custom_names(ctx, pp):
@@ -358,11 +422,50 @@ def run(ctx):
                         check_case(lim, "sort_tree", pp, tuple(range(n)), e)
                     if n <= 4:
                         check_custom_names(lim, pp)
+                # dtype families of the extra columns x ids far from 0 x duplicate coordinates, rotating over the structures
+                if n >= 2:
+                    far = tuple(FAR + 17 * k for k in labs[4])
+                    np_ = len(PROFILES)
+                    if n <= 3 or (thorough and n == 4):
+                        for pi, prf in enumerate(PROFILES):
+                            check_case(lim, ("sort_nodes", "sort_nodes_")[(si + pi) % 2], pp, (far, labs[3])[pi % 2], prf, dup=(si + pi) % 2 == 0)
+                    elif n == 4 or thorough or si % 3 == 0:
+                        check_case(lim, ("sort_nodes", "sort_nodes_")[si % 2], pp, (labs[3], far, labs[0])[si % 3], PROFILES[si % np_], dup=si % 4 == 1)
+                    if n <= 3 or (n == 4 and si % 2 == 0) or si % 7 == 0:
+                        check_case(lim, "read_swc", pp, (far, labs[3])[si % 2], FILE_PROFILES[si % 2], base, dup=si % 4 < 2)
+                        check_case(lim, "sort_nodes_impl", pp, far, 0)
+                    if pp[0] == -1 and (n <= 4 or thorough or si % 2 == 0):
+                        check_case(lim, "sort_tree", pp, tuple(range(n)), PROFILES[(si + 1) % np_], dup=si % 2 == 1)
+        # larger random tables: root in the last / a middle / the first row, non-contiguous or far ids, every dtype family
+        for t in range(12 if thorough else 6):
+            n = (9, 17, 33)[t % 3]
+            parent = [-1] + [rng.randrange(i) for i in range(1, n)]
+            perm = list(range(n))
+            rng.shuffle(perm)
+            rootrow = (n - 1, n // 2, 0)[t % 3]
+            j = perm.index(rootrow)
+            perm[0], perm[j] = perm[j], perm[0]  # node 0 (the root) sits in row `rootrow`
+            pp = [0] * n
+            for i in range(n):
+                pp[perm[i]] = -1 if parent[i] == -1 else perm[parent[i]]
+            ids = rng.sample(range(1, 50 * n), n) if t % 2 == 0 else [FAR + 13 * k for k in rng.sample(range(n * 3), n)]
+            for pi, prf in enumerate(PROFILES + (2,)):
+                check_case(lim, ("sort_nodes_", "sort_nodes")[(t + pi) % 2], pp, ids, prf, dup=(t + pi) % 2 == 1)
+            check_case(lim, "read_swc", pp, ids, FILE_PROFILES[t % 2], base, dup=t % 2 == 0)
+            check_case(lim, "sort_nodes_impl", pp, ids, 0)
+            keep0 = [0] + rng.sample(range(1, n), n - 1)  # tree objects: root first, the other rows shuffled
+            pt = [0] * n
+            for i in range(n):
+                pt[keep0[i]] = -1 if parent[i] == -1 else keep0[parent[i]]
+            for prf in PROFILES[t % 2::2]:
+                check_case(lim, "sort_tree", pt, tuple(range(n)), prf, dup=t % 2 == 1)
         ctx.rule(
             f"every rooted labelled tree on the rows of a table with <= {nmax} rows (= all row permutations of all sorted tables, root at any row) x "
             "id labellings (all permutations of 0..n-1 for n<=4 and the non-contiguous {3,10,11,20,..}; contiguous/reversed/non-contiguous/shuffled/1-based above) for sort_nodes_impl; "
             "data-frame and file forms on every structure <= 5 rows with 0-2 extra columns and rotating labellings; sort_tree on every tree with root 0 x 0-2 extra columns, and (<= 4 nodes) with user-chosen column names; "
-            "each result sorted a second time. Non-trivial = >= 2 nodes",
+            "each result sorted a second time. Fourth session: extra columns of the dtype families int64 (~2**62) / uint64 (> 2**63) / float32 / float64 with 17 digits / bool / str / int32 / float16 "
+            "x ids 10**12 + ... x duplicate coordinates, rotating over all structures <= 5 rows for the table, file (float families) and tree forms; 6 (12) random tables of 9 / 17 / 33 rows with the root in the "
+            "last / middle / first row x every dtype family; all values compared exactly in their own type. Non-trivial = >= 2 nodes",
             exhaustive=True,
         )
         ctx.notes.append("sort_nodes_impl's docstring calls its second result 'id_map: new id -> original id'; the value returned is new id -> original ROW index "
@@ -388,7 +491,7 @@ def replay(spec):
     if "names" in spec:
         check_custom_names(c, tuple(spec["parent_row"]))
     else:
-        check_case(c, spec["carrier"], spec["parent_row"], spec["ids"], spec["extra_columns"])
+        check_case(c, spec["carrier"], spec["parent_row"], spec["ids"], spec["extra_columns"], dup=spec.get("duplicate_coordinates", False))
     for v in c.v:
         print("  still failing:", v[:2], v[3:5])
     return not c.v
